@@ -50,6 +50,7 @@ def parseExc (s : String) : Option Exc :=
   | "OOBData" => some (.oobData 0)
   | "RT.other" => some (.runtime 0)
   | "TypeError" => some .typeErr
+  | "InvalidState" => some excInvalidState
   | _ => none
 
 def parseCatch (s : String) : Option Catch :=
@@ -77,6 +78,7 @@ def showEv : Ev → String
   | .log n => s!"l{n}"
   | .recv v => s!"r{v}"
   | .caught e => s!"c{excName e}"
+  | .cv i v => s!"v{i}={v}"
 
 def showLog (l : List Ev) : String := if l.isEmpty then "-" else " ".intercalate (l.map showEv)
 
@@ -110,6 +112,12 @@ partial def toStmt : SExp → Option Stmt
   | .list [.atom "reraise"] => some .reraise
   | .list [.atom "ret", .atom v] => v.toInt?.map .ret
   | .list [.atom "raise", .atom e] => (parseExc e).map .raise
+  | .list [.atom "cset", .atom i, .atom v] => do
+    let i ← i.toNat?
+    let v ← v.toInt?
+    pure (.cset i v)
+  | .list [.atom "cget", .atom i] => i.toNat?.map .cget
+  | .list [.atom "creset", .atom i] => i.toNat?.map .creset
   | .list (.atom "try" :: .list body :: rest) => do
     let b ← toStmts body
     let mut hs : List (Catch × List Stmt) := []
@@ -198,13 +206,16 @@ def runCase (layers : List String) (p : Prog) (ds : List Drive) : Option String 
   | some O => some (runObj O ds)
   | none => none
 
+def showCv (cv : List (Nat × Val)) : String := s!"{cvGet cv 0},{cvGet cv 1}"
+
 def syncCase (p : Prog) : String :=
-  let I := progObj p
+  let I := coroObj (interp p) id
   let r := awaitSync I
   let cause := match r.cause with
     | none => "-"
     | some o => showOut o
-  s!"out={showOut r.out} ; cause={cause} ; {I.view r.coro}"
+  let st : MState := r.coro.body
+  s!"out={showOut r.out} ; cause={cause} ; phase={phaseName r.coro} ; log={showLog st.log} ; cv={showCv st.cv} ; reset={showCv (resetAll st.cv st.toks)}"
 
 /-- async iterator whose i-th `__anext__` runs the i-th program (then StopAsyncIteration);
     state = index and the accumulated event log -/
